@@ -346,7 +346,12 @@ Definition local_modified (st : cstate) (lev : cev) (sim : bool) : cstate * bool
      | None => st end, true)
   else
   match l_live st !! i with
-  | None => crash st
+  | None =>
+      (* [getUpdatedObject(None, ...)] raises when an attribute is to be set; otherwise the
+         handler is still invoked (without objects) and replacing the missing object raises *)
+      if negb (is_empty_map (md_a d) && is_empty_map (md_m d)) then crash st else
+      let '(st1, ok) := call_handler st HModified (ce_t lev) (ce_k lev) (ce_kind lev) None None in
+      if negb ok then (st1, false) else crash st1
   | Some old =>
       let new := apply_mod d old in
       let '(st1, ok) := call_handler st HModified (ce_t lev) (ce_k lev) (ce_kind lev) (Some new) (Some old) in
@@ -470,7 +475,12 @@ Definition remote_modified (f : nat) (st : cstate) (rev : cev) (lev : option cev
     if negb ok then (st1, false) else (upd_c st1, true)
   else
   match r_live st !! i with
-  | None => crash st
+  | None =>
+      (* [getUpdatedObject(None, ...)] raises when an attribute is to be set; otherwise the
+         local side is processed first and replacing the missing remote object raises *)
+      if negb (is_empty_map (md_a d) && is_empty_map (md_m d)) then crash st else
+      let '(st1, ok) := process_local f st (Some rev) lev false false in
+      if negb ok then (st1, false) else crash st1
   | Some old =>
       let '(st1, ok) := process_local f st (Some rev) lev false false in
       if negb ok then (st1, false) else
